@@ -19,14 +19,10 @@ TEST = "TestVerifC10"
 CFG_KEYS = ("ss", "pos", "bat", "rwq")
 
 
-# set by probe_offset0_check(): does the implementation check flagSubscribed on the offset-0 publication
-# path?  (the model's switch `offset0Checked`; "model the code that exists")
-FIX = {"offset0Checked": False}
-
-
 def cfg_str(cfg):
-    return " ".join(f"{k}={int(bool(cfg[k]))}" for k in CFG_KEYS) + " serial=1" + \
-        (" fix=1" if FIX["offset0Checked"] else "")
+    # the model's switch offset0Checked defaults to true = the current code (fix 9c975f8e); a regression of
+    # that check shows up as a property violation (C10-1 is `fixed`, it suppresses nothing) and as a diff
+    return " ".join(f"{k}={int(bool(cfg[k]))}" for k in CFG_KEYS) + " serial=1"
 
 
 def run_line(cfg, labels):
@@ -277,16 +273,6 @@ def run(ctx):
                       no_input=True)
         return
     R = Runner(ctx, binary)
-    # regenerate the model's switch from the code: replay the C10-1 schedule on the implementation
-    probe = R.impl(["run ss=0 pos=0 bat=0 rwq=0 serial=1 | S S B:p:1 B:p:1"])
-    pp = parse_out(probe[0]) if probe else None
-    if pp is not None:
-        FIX["offset0Checked"] = not any(t.startswith("P0") for t in pp[0]) and not any(
-            a.startswith("B:") for a in pp[1])
-    ctx.extra["model_switch_offset0Checked"] = FIX["offset0Checked"]
-    if FIX["offset0Checked"]:
-        ctx.notes.append("implementation checks flagSubscribed on the offset-0 path: model run with offset0Checked=true")
-
     # ---- schedules
     if ctx.replay:
         run_ops = [op.partition(";")[0].strip() for op in json.load(open(ctx.replay)).get("ops", [])]
@@ -297,7 +283,7 @@ def run(ctx):
         corpus = [l.strip() for l in open(os.path.join(VERIF, "props/C10/corpus.ops"))
                   if l.strip() and not l.startswith("#")]
         known_ops = [op for e in local_findings() for op in (e.get("replay") or {}).get("ops", [])]
-        gens = gen_ops(ctx, ctx.scale(400, 12000))
+        gens = gen_ops(ctx, ctx.scale(400, 6000))
         gout = R.model(gens)
         plain = known_ops + corpus
         pm = R.model(plain)
@@ -321,6 +307,7 @@ def run(ctx):
     # ---- oracle on the implementation's frames
     seen_classes = {}
     harness_errors = 0
+    scen = []          # (op, cfg, labels, toks, bad, out)
     for i, op in enumerate(run_ops):
         out = impl[i] if i < len(impl) else "<missing>"
         cfg, labels = parse_run(op)
@@ -330,15 +317,23 @@ def run(ctx):
             ctx.count("harness-error")
             continue
         toks, _ = p
-        ctx.record(op, nontrivial=any(t.split(":")[0] in ("P0", "PH", "J", "L") for t in toks))
-        ctx.count("cfg:" + "".join(k for k in CFG_KEYS if cfg[k]) or "cfg:-")
+        ctx.record(op.partition(";")[0].strip(),
+                   nontrivial=any(t.split(":")[0] in ("P0", "PH", "J", "L") for t in toks))
+        ctx.count("cfg:" + ("".join(k for k in CFG_KEYS if cfg[k]) or "-"))
         for t in toks:
             ctx.count("frame:" + t.split(":")[0])
         bad = oracle_all(toks)
         ctx.count("oracle:" + ("violated" if bad else "holds"))
-        if not bad:
-            continue
-        pcs = R.preclass_many([(cfg, labels, toks, k) for k in bad])
+        if bad:
+            scen.append((op, cfg, labels, toks, bad, out))
+    # one model call classifies every offending push of the run
+    flat = [(cfg, labels, toks, k) for (_, cfg, labels, toks, bad, _) in scen for k in bad]
+    pcs_all = R.preclass_many(flat)
+    pos = 0
+    for (op, cfg, labels, toks, bad, out) in scen:
+        pcs = pcs_all[pos:pos + len(bad)]
+        pos += len(bad)
+        p = (toks, [])
         for idx, (inv, kind, committed) in zip(bad, pcs):
             cls = (inv, kind, committed, cfg["ss"]) if inv == "push-before-subscribe" else \
                 (inv, kind, cfg["rwq"], cfg["bat"], "WH" in labels, "T" in labels)
